@@ -103,6 +103,8 @@ def gen_plan(rng, index, tier):
                 crop, crop2 = rng.choice([36, 40, 52, 72]), rng.choice([36, 40, 52, 72])
             plan["crop_hw"] = [crop, crop2]
             plan["max_instances"] = None
+            if rng.random() < 0.2:
+                plan["gt_centroids"] = True  # only the centered-instance model is given: crops are cut around the labelled centroids
         if blob:
             # wide enough that the stride grid still sees a unique maximum above the 0.2 threshold after every rescale
             st_list = [plan[k] for k in ("single", "centroid", "centered") if k in plan]
@@ -175,7 +177,7 @@ def gen_plan(rng, index, tier):
 
 def describe(plan):
     d = {k: plan[k] for k in ("kind", "H", "W", "max_hw", "n_nodes", "refinement", "batch", "dtype", "anchor") if k in plan}
-    for k in ("single", "centroid", "centered", "crop_hw"):
+    for k in ("single", "centroid", "centered", "crop_hw", "gt_centroids"):
         if k in plan:
             d[k] = plan[k]
     d["animals_per_frame"] = [len(f["animals"]) for f in plan["frames"]]
@@ -280,7 +282,7 @@ def execute(plan, choices=None):
     violations = []
     probes = {"keypoints_compared": 0, "invisible_checked": 0, "scaled_runs": 0, "size_matched_runs": 0, "padded_runs": 0,
               "worst_err_over_tol_x1000_max": 0, "provider_pairs_compared": 0, "integral_refinement": 0, "instances_compared": 0, "degenerate_tie_scene_skipped": 0, "mixed_frame_sizes": 0, "frame_without_visible_animal": 0,
-              "grayscale_blob_frames": int(plan.get("frame_kind") == "blob"),
+              "grayscale_blob_frames": int(plan.get("frame_kind") == "blob"), "ground_truth_centroid_runs": int(bool(plan.get("gt_centroids"))),
               "non_square_crop": int(plan.get("crop_hw") is not None and plan["crop_hw"][0] != plan["crop_hw"][1]),
               "crop_not_multiple_of_stride": int(plan.get("crop_hw") is not None and any(c % plan["centered"]["max_stride"] for c in plan["crop_hw"]))}
 
@@ -296,9 +298,10 @@ def execute(plan, choices=None):
     results = {}
     digests = []
     last_nets = {}
-    for provider in (("labels",) if mixed else ("video", "labels")):
+    only_labels = mixed or bool(plan.get("gt_centroids"))  # no VideoReader for mixed sizes / ground-truth centroids
+    for provider in (("labels",) if only_labels else ("video", "labels")):
         try:
-            records, end, err, sim, nets = pw.run_predictor(plan, provider, choices if provider == ("labels" if mixed else "video") else None)
+            records, end, err, sim, nets = pw.run_predictor(plan, provider, choices if provider == ("labels" if only_labels else "video") else None)
             last_nets = nets
         except Exception as ex:
             import traceback
